@@ -255,3 +255,25 @@ package internal_planner
 //@ func (*ParserPlanner).Process$1 [C09]
 //@   flag checks=-index,-assert
 //@   ensures never-fails-the-stream: result == nil
+
+// The last in-process stage of a log query groups entries per series and flushes
+// the groups once 3000 entries are buffered: after a flush nothing that was sent
+// is still buffered (it would be sent again by the next flush), and the entry
+// count is the number of buffered entries.
+//@ func (*ResponseOptimizerPlanner).Process$1 [C09]
+//@   flag checks=-index,-assert
+//@   check counted: size == old(size) + 1
+//@ func (*ResponseOptimizerPlanner).Process$2 [C09]
+//@   flag checks=-index,-assert
+//@   check nothing-sent-stays-buffered: old(size) >= 3000 ==> len(fpMap) == 0 && size == 0
+//@   check below-the-threshold-nothing-happens: old(size) < 3000 ==> fpMap == old(fpMap) && size == old(size)
+//@   loop 1:
+//@     modifies nothing
+
+// The per-series bucket array of an in-process range aggregation has one slot pair
+// per range duration in the window - (To - From) / range - which is what addValue
+// indexes it by; the request step has nothing to do with it.
+//@ func (*AggregatorPlanner).process [C09,C12]
+//@   flag checks=-index,-assert
+//@   requires p.Duration > 0
+//@   at WrapProcess one-bucket-per-range-duration: streamLen == (ctx.To.UnixNano() - ctx.From.UnixNano()) / p.Duration
